@@ -107,7 +107,7 @@ def run_vmslot(chk, pid, n):
             if l.strip() and not l.startswith('#'):
                 cases.append('k%d vmslot %s' % (len(cases), l.strip()))
     for i in range(n):
-        font = rng.choice(('Padauk.ttf', 'charis_r_gr.ttf', 'Scheherazadegr.ttf', 'Annapurnarc2.ttf'))
+        font = rng.choice(('Padauk.ttf', 'charis_r_gr.ttf', 'Scheherazadegr.ttf', 'Annapurnarc2.ttf', 'small.ttf', 'general.ttf'))      # the last two declare no / few user attributes
         rep = S.repertoire(vlib.REPO, font)
         k = rng.randrange(1, 9)
         cps = [rng.choice(rep) for _ in range(k)]
